@@ -188,7 +188,7 @@ class History:
         from pyoak.node import NODE_REGISTRY, ASTNode
 
         P = U.P
-        tg = G.TreeGen(rng, U, max_nodes=6, max_depth=3, max_width=3, share=0.0, twin=0.3, p_origin=0.0, hostile=0.0, exclude=(f"{P}Stmt",))
+        tg = G.TreeGen(rng, U, max_nodes=6, max_depth=3, max_width=3, share=0.0, twin=0.3, p_origin=0.0, hostile=0.0, exclude=(f"{P}Stmt", f"{P}Meta"))  # (a lossy field serializer: as_dict / as_obj re-creates another content under a forced id)
         contents = [tg.tree() for _ in range(rng.randint(3, 8))]
         # make sure a depth >= 2 content exists
         contents.append(S(f"{P}Picky", {"v": rng.randrange(3)}))
